@@ -32,7 +32,7 @@ ASSUMPTIONS = [
     "marks: jinja2.sandbox.unsafe, alters_data=True, and an is_safe_callable override that rejects objects carrying vt_forbidden and defers to super() otherwise",
 ]
 NSHARDS = {"quick": 16, "thorough": 16}
-BUDGET_S = {"quick": 18, "thorough": 300}
+BUDGET_S = {"quick": 14, "thorough": 300}
 FLOORS = {
     "quick": {"evaluations": 8000, "distinct": 4000,
               "counters": {"twin_invocations": 4000, "marked_renders": 4000,
